@@ -245,6 +245,11 @@ func main() {
 		out = os.Args[1]
 	}
 
+	repo := "/repo"
+	if len(os.Args) > 2 {
+		repo = os.Args[2]
+	}
+
 	var w strings.Builder
 
 	w.WriteString("(* GENERATED by harness/c09gen from /repo (verif export hooks of the protocol packages). Do not edit. *)\n")
@@ -264,6 +269,24 @@ func main() {
 		c09tab.Msgs["didex"], nil, true)
 	emit(&w, "legacy", conv(legacyconnection.VerifGraph()),
 		c09tab.Msgs["legacy"], nil, true)
+
+	// source-level tables (go/ast over the packages of the repo under check)
+	w.WriteString("\n(* ---- read off the source (go/ast) ---- *)\n")
+
+	for _, x := range [][2]string{{"ic", "issuecredential"}, {"pp", "presentproof"}, {"intro", "introduce"},
+		{"didex", "didexchange"}, {"legacy", "legacyconnection"}} {
+		src := loadPkg(protoDir(repo, x[1]))
+		emitDeclared(&w, x[0], src)
+
+		switch x[0] {
+		case "didex":
+			t := conv(didexchange.VerifGraph())
+			emitFollow(&w, "didex", t, c09tab.Msgs["didex"], src.followTable(t.States, c09tab.Msgs["didex"], didexchange.VerifMsgTypes()))
+		case "legacy":
+			t := conv(legacyconnection.VerifGraph())
+			emitFollow(&w, "legacy", t, c09tab.Msgs["legacy"], src.followTable(t.States, c09tab.Msgs["legacy"], legacyconnection.VerifMsgTypes()))
+		}
+	}
 
 	if err := os.WriteFile(out, []byte(w.String()), 0o644); err != nil {
 		fmt.Fprintln(os.Stderr, err)
